@@ -52,7 +52,10 @@ var vcNames = []string{"self", "n1", "n2", "n3", "n4"}
 var vcAddrs = []net.IP{
 	{10, 0, 0, 100}, {10, 0, 0, 1}, {10, 0, 0, 2}, {192, 168, 0, 9},
 	net.ParseIP("::ffff:10.0.0.3"), net.ParseIP("fe80::1"),
+	// the same hosts on another port: a different address
+	{10, 0, 0, 1}, {10, 0, 0, 2},
 }
+var vcPorts = []uint16{7946, 7946, 7946, 7946, 7946, 7946, 7947, 9000}
 
 // source-only addresses (handleAlive `from`): ids continue after vcAddrs
 var vcSrcExtra = []string{"[fe80::dead:beef%eth0]:7946", "not-an-ip:7946"}
@@ -66,12 +69,12 @@ func (a vcAddr) String() string  { return string(a) }
 
 func vcAddrID(ip net.IP, port uint16) int64 {
 	for i, a := range vcAddrs {
-		if a.Equal(ip) && len(a) == len(ip) && port == 7946 {
+		if a.Equal(ip) && len(a) == len(ip) && port == vcPorts[i] {
 			return int64(i)
 		}
 	}
 	for i, a := range vcAddrs {
-		if a.Equal(ip) && port == 7946 {
+		if a.Equal(ip) && port == vcPorts[i] {
 			return int64(i)
 		}
 	}
@@ -324,7 +327,7 @@ func vcRun(t *testing.T, c *vfCase, st *vfStats) {
 	c.Obs = append(c.Obs, snapshot(false))
 	srcOf := func(id int64) net.Addr {
 		if int(id) < len(vcAddrs) {
-			return vcAddr(net.JoinHostPort(vcAddrs[id].String(), "7946"))
+			return vcAddr(net.JoinHostPort(vcAddrs[id].String(), fmt.Sprint(vcPorts[id])))
 		}
 		return vcAddr(vcSrcExtra[(int(id)-len(vcAddrs))%len(vcSrcExtra)])
 	}
@@ -344,11 +347,11 @@ func vcRun(t *testing.T, c *vfCase, st *vfStats) {
 					// the incarnation it has just drawn (setAlive / UpdateNode second half)
 					op[1], op[2] = int64(m.incarnation.Load()), 0
 				}
-				a := alive{Incarnation: uint32(op[1]), Node: vcNames[op[2]], Addr: vcAddrs[op[3]], Port: 7946, Meta: []byte(vcMetas[op[4]]), Vsn: vcVsns[op[5]]}
+				a := alive{Incarnation: uint32(op[1]), Node: vcNames[op[2]], Addr: vcAddrs[op[3]], Port: vcPorts[op[3]], Meta: []byte(vcMetas[op[4]]), Vsn: vcVsns[op[5]]}
 				m.aliveNode(&a, nil, op[6] != 0)
 				st.OpHist["alive"]++
 			case 1:
-				a := alive{Incarnation: uint32(op[2]), Node: vcNames[op[3]], Addr: vcAddrs[op[4]], Port: 7946, Meta: []byte(vcMetas[op[5]]), Vsn: vcVsns[op[6]]}
+				a := alive{Incarnation: uint32(op[2]), Node: vcNames[op[3]], Addr: vcAddrs[op[4]], Port: vcPorts[op[4]], Meta: []byte(vcMetas[op[5]]), Vsn: vcVsns[op[6]]}
 				buf, err := encode(aliveMsg, &a, false)
 				if err != nil {
 					t.Fatal(err)
@@ -362,7 +365,7 @@ func vcRun(t *testing.T, c *vfCase, st *vfStats) {
 				m.deadNode(&dead{Incarnation: uint32(op[1]), Node: vcNames[op[2]], From: vcNames[op[3]]})
 				st.OpHist["dead"]++
 			case 4:
-				m.mergeState([]pushNodeState{{Name: vcNames[op[3]], Addr: vcAddrs[op[4]], Port: 7946, Meta: []byte(vcMetas[op[5]]),
+				m.mergeState([]pushNodeState{{Name: vcNames[op[3]], Addr: vcAddrs[op[4]], Port: vcPorts[op[4]], Meta: []byte(vcMetas[op[5]]),
 					Incarnation: uint32(op[2]), State: NodeStateType(op[1]), Vsn: vcVsns[op[6]]}})
 				st.OpHist["merge"]++
 			case 5:
